@@ -947,6 +947,7 @@ var bombs = []struct {
 	enc  []byte
 }{
 	{"bomb-2p62", []byte{0x08, 0x40, 0, 0, 0, 0, 0, 0, 0}},
+	{"bomb-maxint64", []byte{0x08, 0x7f, 0xff, 0xff, 0xff, 0xff, 0xff, 0xff, 0xff}}, // n+length overflows
 	{"bomb-2p31", []byte{0x04, 0x80, 0, 0, 0}},
 }
 
